@@ -155,37 +155,49 @@ structure St where
 def endcommentName : List Char := "endcomment".toList
 def commentName : List Char := "comment".toList
 
+/-- the TAG branch's tokens: the name, and the expression when it is not empty -/
+def tagToks (m : Match) : List Tok :=
+  if m.body.isEmpty then [⟨.tag, m.name, m.nameOff⟩]
+  else [⟨.tag, m.name, m.nameOff⟩, ⟨.expression, m.body, m.bodyOff⟩]
+
+/-- `value.lstrip()` when the previous markup asked for it, `value.rstrip()` when the next one does -/
+def stripped (st : St) (m : Match) : List Char :=
+  let v1 := if st.lstrip then lstrip m.whole else m.whole
+  if m.rstrip then rstrip v1 else v1
+
+/-- the CONTENT branch: strip, drop when empty, reject text that starts with the hard-coded `{{` / `{%` -/
+def contentStep (st : St) (m : Match) : St × List Tok × Option Tok :=
+  if (stripped st m).isEmpty then (st, [], none)
+  else if "{{".toList.isPrefixOf (stripped st m) || "{%".toList.isPrefixOf (stripped st m) then
+    (st, [], some ⟨.eof, m.whole, m.start⟩)
+  else (st, [⟨.content, stripped st m, m.start⟩], none)
+
+/-- the `if comment_depth:` block at the top of the loop body -/
+def commentStep (st : St) (m : Match) : St × List Tok × Option Tok :=
+  if m.kind == .tag && m.name == endcommentName then
+    if st.depth - 1 == 0 then
+      ({ lstrip := m.rs, depth := 0, cidx := 0, ctext := [] },
+       [⟨.comment, st.ctext, st.cidx⟩, ⟨.tag, m.name, m.nameOff⟩], none)
+    else ({ st with depth := st.depth - 1, ctext := st.ctext ++ m.whole }, [], none)
+  else if m.kind == .tag && m.name == commentName then
+    ({ st with depth := st.depth + 1, ctext := st.ctext ++ m.whole }, [], none)
+  else ({ st with ctext := st.ctext ++ m.whole }, [], none)
+
 /-- One iteration of the `for match in rules.finditer(source)` loop: the new state, the tokens yielded,
 and the token of the `LiquidSyntaxError` if one is raised. -/
 def stepM (st : St) (m : Match) : St × List Tok × Option Tok :=
-  if st.depth != 0 then
-    if m.kind == .tag && m.name == endcommentName then
-      if st.depth - 1 == 0 then
-        ({ lstrip := m.rs, depth := 0, cidx := 0, ctext := [] },
-         [⟨.comment, st.ctext, st.cidx⟩, ⟨.tag, m.name, m.nameOff⟩], none)
-      else ({ st with depth := st.depth - 1, ctext := st.ctext ++ m.whole }, [], none)
-    else if m.kind == .tag && m.name == commentName then
-      ({ st with depth := st.depth + 1, ctext := st.ctext ++ m.whole }, [], none)
-    else ({ st with ctext := st.ctext ++ m.whole }, [], none)
+  if st.depth != 0 then commentStep st m
   else
     match m.kind with
     | .output => ({ st with lstrip := m.rs }, [⟨.output, m.whole, m.start⟩, ⟨.expression, m.body, m.bodyOff⟩], none)
     | .tag =>
-      let toks := if m.body.isEmpty then [⟨.tag, m.name, m.nameOff⟩]
-                  else [⟨.tag, m.name, m.nameOff⟩, ⟨.expression, m.body, m.bodyOff⟩]
       if m.name == commentName then
-        ({ lstrip := m.rs, depth := 1, cidx := m.start + m.whole.length, ctext := st.ctext }, toks, none)
-      else ({ st with lstrip := m.rs }, toks, none)
+        ({ lstrip := m.rs, depth := 1, cidx := m.start + m.whole.length, ctext := st.ctext }, tagToks m, none)
+      else ({ st with lstrip := m.rs }, tagToks m, none)
     | .scomment => ({ st with lstrip := m.rs }, [⟨.scomment, m.body, m.start⟩], none)
     | .raw => ({ st with lstrip := m.rs }, [⟨.content, m.body, m.start⟩], none)
     | .doc => ({ st with lstrip := m.rs }, [⟨.doc, m.body, m.start⟩], none)
-    | .content =>
-      let v1 := if st.lstrip then lstrip m.whole else m.whole
-      let v2 := if m.rstrip then rstrip v1 else v1
-      if v2.isEmpty then (st, [], none)
-      else if "{{".toList.isPrefixOf v2 || "{%".toList.isPrefixOf v2 then
-        (st, [], some ⟨.eof, m.whole, m.start⟩)
-      else (st, [⟨.content, v2, m.start⟩], none)
+    | .content => contentStep st m
 
 /-- the whole generator: tokens yielded before the first error, and the error token -/
 def tokenizeM (st : St) : List Match → List Tok × Option Tok
